@@ -6,37 +6,41 @@ namespace CC.Arr
 open CC
 
 /-! ### add -/
-theorem add_refines (a : Arr) (x : Nat) (m : Mem) (h : a.Inv) (hl : 0 < m.live) (hok : (a.add x m).1 = .ok) :
+theorem add_refines (a : Arr) (x : Nat) (m : Mem) (h : a.Inv) (hok : (a.add x m).1 = .ok) :
     (a.add x m).1 = (Spec.Seq.add a.abs x).1 ∧ (a.add x m).2.1.abs = (Spec.Seq.add a.abs x).2 := by
-  rcases (add_spec a x m h hl).1 with ⟨ok, habs, _⟩ | ⟨hb, _⟩
+  rcases (add_spec a x m h).1 with ⟨ok, habs, _⟩ | ⟨hb, _⟩
   · exact ⟨ok, habs⟩
   · rcases hb.1 with ⟨e, _⟩ | ⟨e, _⟩ <;> rw [e] at hok <;> simp at hok
-theorem add_inv (a : Arr) (x : Nat) (m : Mem) (h : a.Inv) (hl : 0 < m.live) : (a.add x m).2.1.Inv := by
-  rcases (add_spec a x m h hl).1 with ⟨_, _, g⟩ | ⟨_, hs⟩
+theorem add_inv (a : Arr) (x : Nat) (m : Mem) (h : a.Inv) : (a.add x m).2.1.Inv := by
+  rcases (add_spec a x m h).1 with ⟨_, _, g⟩ | ⟨_, hs⟩
   · exact g.inv h
   · rw [hs]; exact h
-theorem add_nofault (a : Arr) (x : Nat) (m : Mem) (h : a.Inv) (hl : 0 < m.live) :
-    (a.add x m).2.2.fault = m.fault := (add_spec a x m h hl).2.2
-theorem add_ledger (a : Arr) (x : Nat) (m : Mem) (h : a.Inv) (hl : 0 < m.live) :
-    (a.add x m).2.2.live = m.live := (add_spec a x m h hl).2.1
-theorem add_inert (a : Arr) (x : Nat) (m : Mem) (h : a.Inv) (hl : 0 < m.live) (hne : (a.add x m).1 ≠ .ok) :
+theorem add_nofault (a : Arr) (x : Nat) (m : Mem) (h : a.Inv) :
+    (a.add x m).2.2.fault = m.fault := (add_spec a x m h).2.2
+theorem add_ledger (a : Arr) (x : Nat) (m : Mem) (h : a.Inv) :
+    (a.add x m).2.2.live = m.live := (add_spec a x m h).2.1
+theorem add_inert (a : Arr) (x : Nat) (m : Mem) (h : a.Inv) (hne : (a.add x m).1 ≠ .ok) :
     (a.add x m).2.1 = a := by
-  rcases (add_spec a x m h hl).1 with ⟨ok, _⟩ | ⟨_, hs⟩
+  rcases (add_spec a x m h).1 with ⟨ok, _⟩ | ⟨_, hs⟩
   · exact absurd ok hne
   · exact hs
 theorem add_atomic (a : Arr) (x : Nat) (m : Mem) (hfull : a.size = a.capacity)
-    (hmax : ¬ a.AtLimit) (hr : m.alloc.1 = false) :
+    (hmax : ¬ a.AtLimit) (hr : (m.allocT a.triple).1 = false) :
     (a.add x m).1 = .errAlloc ∧ (a.add x m).2.1 = a ∧ (a.add x m).2.2.live = m.live := by
   have hf : a.capacity ≤ a.size := by omega
+  have hl : (m.allocT a.triple).2.live = m.live := by
+    rcases allocT_cases m a.triple with ⟨g, _⟩ | ⟨_, g, _⟩
+    · rw [hr] at g; simp at g
+    · exact g
   rw [add_full a x m hf, expandCapacity_refused a m hmax hr]
-  exact ⟨rfl, rfl, (Mem.alloc_fst_false m hr).1⟩
+  exact ⟨rfl, rfl, hl⟩
 
 /-! ### add_at -/
-theorem addAt_refines (a : Arr) (x i : Nat) (m : Mem) (h : a.Inv) (hl : 0 < m.live)
+theorem addAt_refines (a : Arr) (x i : Nat) (m : Mem) (h : a.Inv)
     (hnb : (a.addAt x i m).1 ≠ .errAlloc ∧ (a.addAt x i m).1 ≠ .errMaxCapacity) :
     (a.addAt x i m).1 = (Spec.Seq.addAt a.abs x i).1 ∧ (a.addAt x i m).2.1.abs = (Spec.Seq.addAt a.abs x i).2 := by
   unfold Spec.Seq.addAt
-  rcases (addAt_spec a x i m h hl).1 with ⟨hi, sp⟩ | ⟨hgt, heq⟩
+  rcases (addAt_spec a x i m h).1 with ⟨hi, sp⟩ | ⟨hgt, heq⟩
   · have hi' : i ≤ a.abs.length := by simpa using hi
     rcases sp with ⟨ok, habs, _⟩ | ⟨hb, _⟩
     · simp only [hi', if_true]; exact ⟨ok, habs⟩
@@ -45,18 +49,18 @@ theorem addAt_refines (a : Arr) (x i : Nat) (m : Mem) (h : a.Inv) (hl : 0 < m.li
       · exact absurd e hnb.2
   · have hi' : ¬ i ≤ a.abs.length := by simp; omega
     simp only [hi', if_false]; rw [heq]; exact ⟨rfl, rfl⟩
-theorem addAt_inv (a : Arr) (x i : Nat) (m : Mem) (h : a.Inv) (hl : 0 < m.live) : (a.addAt x i m).2.1.Inv := by
-  rcases (addAt_spec a x i m h hl).1 with ⟨_, ⟨_, _, g⟩ | ⟨_, hs⟩⟩ | ⟨_, heq⟩
+theorem addAt_inv (a : Arr) (x i : Nat) (m : Mem) (h : a.Inv) : (a.addAt x i m).2.1.Inv := by
+  rcases (addAt_spec a x i m h).1 with ⟨_, ⟨_, _, g⟩ | ⟨_, hs⟩⟩ | ⟨_, heq⟩
   · exact g.inv h
   · rw [hs]; exact h
   · rw [heq]; exact h
-theorem addAt_nofault (a : Arr) (x i : Nat) (m : Mem) (h : a.Inv) (hl : 0 < m.live) :
-    (a.addAt x i m).2.2.fault = m.fault := (addAt_spec a x i m h hl).2.2
-theorem addAt_ledger (a : Arr) (x i : Nat) (m : Mem) (h : a.Inv) (hl : 0 < m.live) :
-    (a.addAt x i m).2.2.live = m.live := (addAt_spec a x i m h hl).2.1
-theorem addAt_inert (a : Arr) (x i : Nat) (m : Mem) (h : a.Inv) (hl : 0 < m.live)
+theorem addAt_nofault (a : Arr) (x i : Nat) (m : Mem) (h : a.Inv) :
+    (a.addAt x i m).2.2.fault = m.fault := (addAt_spec a x i m h).2.2
+theorem addAt_ledger (a : Arr) (x i : Nat) (m : Mem) (h : a.Inv) :
+    (a.addAt x i m).2.2.live = m.live := (addAt_spec a x i m h).2.1
+theorem addAt_inert (a : Arr) (x i : Nat) (m : Mem) (h : a.Inv)
     (hne : (a.addAt x i m).1 ≠ .ok) : (a.addAt x i m).2.1 = a := by
-  rcases (addAt_spec a x i m h hl).1 with ⟨_, ⟨ok, _⟩ | ⟨_, hs⟩⟩ | ⟨_, heq⟩
+  rcases (addAt_spec a x i m h).1 with ⟨_, ⟨ok, _⟩ | ⟨_, hs⟩⟩ | ⟨_, heq⟩
   · exact absurd ok hne
   · exact hs
   · rw [heq]
@@ -134,22 +138,22 @@ theorem reverse_inv (a : Arr) (m : Mem) (h : a.Inv) : (a.reverse m).1.Inv := by
 theorem reverse_nofault (a : Arr) (m : Mem) (h : a.Inv) : (a.reverse m).2 = m := (reverse_spec a m h).2.2.2
 
 /-! ### trim_capacity -/
-theorem trimCapacity_refines (a : Arr) (m : Mem) (h : a.Inv) (hl : 0 < m.live) :
+theorem trimCapacity_refines (a : Arr) (m : Mem) (h : a.Inv) :
     (a.trimCapacity m).2.1.abs = a.abs := by
-  rcases (trimCapacity_spec a m h hl).1 with ⟨_, h1, _⟩ | ⟨_, _, hs⟩
+  rcases (trimCapacity_spec a m h).1 with ⟨_, h1, _⟩ | ⟨_, _, hs⟩
   · exact h1
   · rw [hs]
-theorem trimCapacity_inv (a : Arr) (m : Mem) (h : a.Inv) (hl : 0 < m.live) : (a.trimCapacity m).2.1.Inv := by
-  rcases (trimCapacity_spec a m h hl).1 with ⟨_, _, _, _, hi, _⟩ | ⟨_, _, hs⟩
+theorem trimCapacity_inv (a : Arr) (m : Mem) (h : a.Inv) : (a.trimCapacity m).2.1.Inv := by
+  rcases (trimCapacity_spec a m h).1 with ⟨_, _, _, _, hi, _⟩ | ⟨_, _, hs⟩
   · exact hi
   · rw [hs]; exact h
-theorem trimCapacity_nofault (a : Arr) (m : Mem) (h : a.Inv) (hl : 0 < m.live) :
-    (a.trimCapacity m).2.2.fault = m.fault := (trimCapacity_spec a m h hl).2.2
-theorem trimCapacity_ledger (a : Arr) (m : Mem) (h : a.Inv) (hl : 0 < m.live) :
-    (a.trimCapacity m).2.2.live = m.live := (trimCapacity_spec a m h hl).2.1
-theorem trimCapacity_atomic (a : Arr) (m : Mem) (h : a.Inv) (hl : 0 < m.live) (hne : (a.trimCapacity m).1 ≠ .ok) :
+theorem trimCapacity_nofault (a : Arr) (m : Mem) (h : a.Inv) :
+    (a.trimCapacity m).2.2.fault = m.fault := (trimCapacity_spec a m h).2.2
+theorem trimCapacity_ledger (a : Arr) (m : Mem) (h : a.Inv) :
+    (a.trimCapacity m).2.2.live = m.live := (trimCapacity_spec a m h).2.1
+theorem trimCapacity_atomic (a : Arr) (m : Mem) (h : a.Inv) (hne : (a.trimCapacity m).1 ≠ .ok) :
     (a.trimCapacity m).1 = .errAlloc ∧ (a.trimCapacity m).2.1 = a := by
-  rcases (trimCapacity_spec a m h hl).1 with ⟨ok, _⟩ | ⟨e, _, hs⟩
+  rcases (trimCapacity_spec a m h).1 with ⟨ok, _⟩ | ⟨e, _, hs⟩
   · exact absurd ok hne
   · exact ⟨e, hs⟩
 
